@@ -60,7 +60,10 @@ type tcase struct {
 	layered bool
 	// "" ready-made; "initiated" / "received": through the default negotiator
 	negotiated string
-	steps      [][]*action // actions of one step run concurrently; steps run one after the other
+	// negotiated sessions: the XML console is switched on (StreamConfig.TeeOut);
+	// "breaks": its writer starts to fail once the session is established
+	tee   string
+	steps [][]*action // actions of one step run concurrently; steps run one after the other
 }
 
 var entries = []string{"Send", "SendElement", "Encode", "EncodeElement", "TokenWriter", "SendIQ", "SendIQElement", "EncodeIQ", "SendMessage", "EncodeMessageElement", "SendPresence", "SendPresenceElement",
@@ -109,6 +112,7 @@ func genCase(t *rapid.T) tcase {
 	tc.layered = rapid.IntRange(0, 3).Draw(t, "layered") == 0
 	if !tc.layered && rapid.IntRange(0, 2).Draw(t, "negotiatedSession") == 0 {
 		tc.negotiated = rapid.SampledFrom([]string{"initiated", "received"}).Draw(t, "negotiatedRole")
+		tc.tee = rapid.SampledFrom([]string{"", "ok", "breaks"}).Draw(t, "tee")
 	}
 	idx := 0
 	ns := rapid.IntRange(1, 6).Draw(t, "nsteps")
@@ -151,7 +155,7 @@ func genCase(t *rapid.T) tcase {
 
 func (tc tcase) String() string {
 	var sb strings.Builder
-	fmt.Fprintf(&sb, "s2s=%v serve=%v write-of-the-closing-tag-fails=%v transport-layered-by-a-negotiation-step=%v session=%q steps:", tc.s2s, tc.serve, tc.closeWriteFails, tc.layered, tc.negotiated)
+	fmt.Fprintf(&sb, "s2s=%v serve=%v write-of-the-closing-tag-fails=%v transport-layered-by-a-negotiation-step=%v session=%q xml-console=%q steps:", tc.s2s, tc.serve, tc.closeWriteFails, tc.layered, tc.negotiated, tc.tee)
 	for i, st := range tc.steps {
 		fmt.Fprintf(&sb, "\n  step %d (concurrently):", i)
 		for _, a := range st {
@@ -353,9 +357,16 @@ func check(t interface {
 	}
 	ns := opts.NS()
 	var err error
+	console := &consoleWriter{}
+	if tc.tee != "" {
+		opts.TeeOut = console
+	}
 	sv, err = wire.NewServed(opts)
 	if err != nil {
 		t.Fatalf("harness: %v", err)
+	}
+	if tc.tee == "breaks" {
+		console.broken.Store(true)
 	}
 	s := sv.Session
 	var closeAttempts atomic.Int32
@@ -563,6 +574,25 @@ func check(t interface {
 
 	// ---- wire
 	out := sv.Conn.Output()
+	if tc.tee == "breaks" {
+		// with a console that refuses everything every write of the session
+		// reports an error although its bytes may have reached the peer (an
+		// element may be cut short by it): neither what calls return nor the
+		// elements are judged for these cases, only the closing tag - at most
+		// one, handed to the transport once, nothing behind it
+		const tag = "</stream:stream>"
+		if n := bytes.Count(out, []byte(tag)); n > 1 {
+			fail("closing stream tag written %d times", n)
+		}
+		if i := bytes.Index(out, []byte(tag)); i >= 0 && len(bytes.TrimSpace(out[i+len(tag):])) > 0 {
+			fail("bytes after the closing stream tag: %q", out[i+len(tag):])
+		}
+		if n := closeAttempts.Load(); n > 1 {
+			fail("the closing stream tag was handed to the transport %d times", n)
+		}
+		ev.Class("xml-console-broken-closing-tag-only")
+		return
+	}
 	items, _, perr := wire.ParseStream(out, false, ns)
 	if perr != nil {
 		fail("output is not well-formed: %v", perr)
@@ -812,6 +842,9 @@ func classify(tc tcase) (bool, []string) {
 	if tc.layered {
 		classes = append(classes, "layered-transport")
 	}
+	if tc.tee != "" {
+		classes = append(classes, "xml-console-"+tc.tee)
+	}
 	if tc.negotiated != "" {
 		classes = append(classes, "session-negotiated-"+tc.negotiated)
 	}
@@ -938,4 +971,22 @@ func TestC10DeadlineExtended(t *testing.T) {
 func isTimeout(err error) bool {
 	var te interface{ Timeout() bool }
 	return errors.As(err, &te) && te.Timeout()
+}
+
+// consoleWriter is the application's XML console (StreamConfig.TeeOut); once
+// broken it refuses everything (its window was closed, its log file is full).
+type consoleWriter struct {
+	broken atomic.Bool
+	mu     sync.Mutex
+	n      int
+}
+
+func (c *consoleWriter) Write(p []byte) (int, error) {
+	if c.broken.Load() {
+		return 0, errors.New("verif: the XML console is gone")
+	}
+	c.mu.Lock()
+	c.n += len(p)
+	c.mu.Unlock()
+	return len(p), nil
 }
